@@ -155,7 +155,10 @@ func (d MsgD) same(m chat.Message, path string) string {
 }
 
 var c17KnownKeys = map[string]bool{"text": true, "bold": true, "italic": true, "underlined": true, "strikethrough": true, "obfuscated": true, "font": true,
-	"color": true, "insertion": true, "clickEvent": true, "hoverEvent": true, "translate": true, "with": true, "extra": true}
+	"color": true, "insertion": true, "clickEvent": true, "hoverEvent": true, "translate": true, "with": true, "extra": true,
+	// keys of the vanilla component format that go-mc does not write today (any protocol version): not an alarm
+	"type": true, "fallback": true, "keybind": true, "score": true, "selector": true, "separator": true, "nbt": true, "block": true,
+	"entity": true, "storage": true, "interpret": true, "source": true, "shadow_color": true, "click_event": true, "hover_event": true}
 
 // stripCodes removes § formatting codes (either case), independently of go-mc's regexp.
 func stripCodes(s string) string {
